@@ -124,6 +124,23 @@ theorem parseFirstLineAux_le : ∀ (fuel : Nat) (b : Bytes) (c : Nat) (line : By
       · simp only [Except.ok.injEq, Prod.mk.injEq] at h
         omega
 
+theorem parseFirstLineAux_pos : ∀ (fuel : Nat) (b : Bytes) (c : Nat) (line : Bytes) (m : Nat),
+    parseFirstLineAux fuel b c = .ok (line, m) → c < m
+  | 0, _, _, _, _, h => by simp [parseFirstLineAux] at h
+  | fuel + 1, b, c, line, m, h => by
+    unfold parseFirstLineAux at h
+    cases hn : nextLine b with
+    | none => simp [hn] at h
+    | some p =>
+      obtain ⟨l, rest⟩ := p
+      have hlt := (nextLine_append b [] l rest hn).2.1
+      simp only [hn] at h
+      split at h
+      · have := parseFirstLineAux_pos fuel _ _ line m h
+        omega
+      · simp only [Except.ok.injEq, Prod.mk.injEq] at h
+        omega
+
 theorem parseFirstLineAux_append : ∀ (fuel fuel' : Nat) (b x : Bytes) (c : Nat) (p : Bytes × Nat),
     parseFirstLineAux fuel b c = .ok p → fuel ≤ fuel' → parseFirstLineAux fuel' (b ++ x) c = .ok p
   | 0, _, _, _, _, _, h, _ => by simp [parseFirstLineAux] at h
